@@ -129,6 +129,7 @@ var EMLDictionary = []string{
 	"Content-Type: multipart/related; boundary=\"\"\r\n", "Content-Type: ;\r\n", "Content-Type: text/plain; charset\r\n", "Content-Type: text/plain; charset=\r\n",
 	"Content-Transfer-Encoding: base64\r\n", "Content-Transfer-Encoding: \r\n", "Content-ID: \r\n", "Content-ID: ;\r\n", "--", "--\r\n", "\r\n\r\n", "\n", "\r", ";", "=", "\"", "=?UTF-8?q?", "?=",
 	"filename=", "filename=\"", "filename=;", "boundary=", "boundary=\"", "name=", ":", ": ", "\x00", "\xff", "Date: \r\n", "From: \r\n", "To: ,\r\n", "Subject:\r\n",
+	"Content-Transfer-Encoding: binary\r\n", "Content-Transfer-Encoding: x-uuencode\r\n", "Content-Transfer-Encoding: 7-bit\r\n", "Content-Transfer-Encoding: base64 (really)\r\n", "Content-Transfer-Encoding: BASE64\r\n", "Content-Transfer-Encoding: 8BIT\r\n",
 	// RFC 822 comments and stray parentheses in MIME header values, address groups, obsolete syntax
 	"Content-Type: text/plain; charset=us-ascii (Plain text)\r\n", "Content-Type: text/plain (a (nested) comment); charset=utf-8\r\n", "Content-Disposition: attachment; filename=\"holiday :) (1).jpg\"\r\n",
 	"Content-Type: application/pdf; name=\"notes ;-)(final).pdf\"\r\n", "Content-Transfer-Encoding: base64 (comment\r\n", "Content-ID: <a)b(c@d>\r\n", ")", "(", ")(", "()", " (", ") ",
@@ -202,6 +203,10 @@ func MutateEML(t *rapid.T, doc string, i int) string {
 		}
 		return strings.Join(lines, "")
 	case 9: // swap transfer encodings
+		if rapid.Bool().Draw(t, label+"-unlisted") {
+			// a transfer encoding the parser has no case for (legal: binary; or simply unknown)
+			return regexp.MustCompile(`(?i)(Content-Transfer-Encoding:\s*)[A-Za-z0-9-]+`).ReplaceAllString(doc, "${1}"+rapid.SampledFrom([]string{"binary", "x-uuencode", "7-bit", "BASE64", "8BIT", "quoted-printable (sort of)"}).Draw(t, label+"-cte"))
+		}
 		r := strings.NewReplacer("base64", "quoted-printable", "quoted-printable", "base64", "8bit", "base64", "7bit", "quoted-printable")
 		return r.Replace(doc)
 	case 10: // boundary games
